@@ -304,6 +304,39 @@ func (c *Ctx) errBlocks(r *Report, pa *ssa.Function, facts *Facts) {
 		}
 	}
 
+	// an error from applying a default / environment value is recorded whatever its type (a typed
+	// ErrInvalidChoice as much as a foreign conversion error): from the non-nil edge of clearDefault's result
+	// every path to the closure's return passes a store to parseState.err
+	for _, cs := range func() []CallSite { s, _ := c.callersOf(c.Fn("(*Option).clearDefault")); return s }() {
+		fn := cs.Fn
+		call, ok := cs.Call.(*ssa.Call)
+		if !ok || call.Referrers() == nil {
+			r.Fail("MPT-defaults", c.fname(fn), "error of clearDefault", c.ipos(cs.Call), "the error result is dropped")
+			continue
+		}
+		nT := 0
+		for _, b := range c.blocks(fn) {
+			iff, isIf := b.Instrs[len(b.Instrs)-1].(*ssa.If)
+			if !isIf {
+				continue
+			}
+			bo, isBo := iff.Cond.(*ssa.BinOp)
+			if !isBo || !(isConstNil(bo.X) || isConstNil(bo.Y)) || (c.resolve(bo.X) != ssa.Value(call) && c.resolve(bo.Y) != ssa.Value(call)) {
+				continue
+			}
+			nT++
+			succ := 0
+			if l := c.cond(iff.Cond); !l.Pos {
+				succ = 1
+			}
+			q := &PathQ{c: c, Fn: fn, CutIn: c.isStoreTo(errField)}
+			path, found := q.Reach(Site{b.Succs[succ], 0}, 0, func(x ssa.Instruction) bool { _, isRet := x.(*ssa.Return); return isRet && x.Parent() == fn })
+			r.Check(!found, "MPT-defaults", c.fname(fn), "a failing default is recorded", c.ipos(iff), "non-nil error of clearDefault ⇒ store parseState.err on every path", "a default/env value that fails can leave no trace in parseState.err (the command then runs): "+pathStr(path))
+		}
+		if nT == 0 {
+			r.Fail("MPT-defaults", c.fname(fn), "error of clearDefault", c.ipos(cs.Call), "the error result is never tested")
+		}
+	}
 	inLoop := func(in ssa.Instruction) bool { return loop.Blocks[in.Block()] }
 	recov := orPred(
 		func(in ssa.Instruction) bool {
